@@ -18,6 +18,66 @@ fn max_nodes(tier: Tier) -> usize {
     tier.pick(3, 4)
 }
 
+/// `wx` is a context function that adds 10 to the variable `xv` of the context it is evaluated
+/// in (through the shared handle) and returns 100; `xv` starts at 1. Expected values follow
+/// from "left to right, each once": a read of `xv` sees exactly the calls of `wx` to its left.
+fn mutating_function_cases(out: &mut WorkerOut) {
+    use expression_engine::{Context, Value};
+    use rust_decimal::Decimal;
+    let n = |i: i64| Value::Number(Decimal::from(i));
+    let cases: Vec<(&str, Value)> = vec![
+        ("wx + xv", n(111)),
+        ("xv + wx", n(101)),
+        ("wx() + xv", n(111)),
+        ("xv + wx() + xv", n(112)),
+        ("[xv, wx, xv]", Value::List(vec![n(1), n(100), n(11)])),
+        ("max(wx, xv)", n(100)),
+        ("min(xv, wx, xv)", n(1)),
+        ("{xv : wx, wx : xv}", Value::Map(vec![(n(1), n(100)), (n(100), n(21))])),
+        ("wx ; xv", n(11)),
+        ("xv = xv + wx ; xv", n(101)),
+        ("xv += wx ; xv", n(101)),
+        ("y = wx ; xv + y", n(111)),
+        ("true ? wx + xv : 0", n(111)),
+        ("xv in [wx, xv]", Value::Bool(false)),
+        ("11 in [wx, xv]", Value::Bool(true)),
+        ("- wx + xv", n(-89)),
+        ("xv < wx && xv > 10", Value::Bool(true)),
+        ("wx + wx + xv", n(221)),
+    ];
+    for (prog, want) in cases {
+        for entry in ["parse+exec", "execute"] {
+            let mut ctx = Context::new();
+            ctx.set_variable("xv", n(1));
+            let handle = ctx.0.clone();
+            ctx.set_func(
+                "wx",
+                std::sync::Arc::new(move |_| {
+                    let mut own = Context::new();
+                    own.0 = handle.clone();
+                    let cur = own.get_variable("xv").and_then(|v| v.decimal().ok()).unwrap_or_default();
+                    own.set_variable("xv", Value::Number(cur + Decimal::from(10)));
+                    Ok(Value::Number(Decimal::from(100)))
+                }),
+            );
+            out.evals += 1;
+            let got = if entry == "execute" {
+                crate::engine::execute(prog, crate::engine::share(&ctx))
+            } else {
+                crate::engine::guarded(|| expression_engine::parse_expression(prog).and_then(|t| t.exec(&mut ctx)).map_err(|e| format!("{:?}", e)))
+            };
+            if got == crate::engine::Res::Ok(want.clone()) {
+                out.count("validated", 1);
+                out.outcomes.insert("mutating-ok".into());
+            } else {
+                out.fail(format!("order:mutating-function:{}", prog.replace(' ', "")), format!("mutating-function|{:?} via {}", prog, entry), format!("expected {} got {:?}", super::vals::show_value(&want), got));
+            }
+        }
+    }
+    out.nontrivial.insert(hash64("mutating"));
+    out.count("states", 1);
+}
+
 impl Prop for C07 {
     fn id(&self) -> &'static str {
         "C07"
@@ -26,6 +86,12 @@ impl Prop for C07 {
         let n = Programs::new(level(tier)).len();
         Plan {
             stages: vec![Stage {
+                name: "mutating-function".into(),
+                len: 1,
+                chunk: 1,
+                timeout: Duration::from_secs(120),
+                what: "a context function that re-binds a variable of its own context (xv += 10, returns 100) next to reads of that variable, in 16 operand / element / entry / statement / assignment positions: each read sees exactly the calls to its left".into(),
+            }, Stage {
                 name: "effects".into(),
                 len: n,
                 chunk: (n / 20).max(50),
@@ -43,7 +109,12 @@ impl Prop for C07 {
             states_note: "states = programs; transitions = (program, fault position) executions compared".into(),
         }
     }
-    fn run(&self, tier: Tier, _stage: usize, a: u64, b: u64, out: &mut WorkerOut) {
+    fn run(&self, tier: Tier, stage: usize, a: u64, b: u64, out: &mut WorkerOut) {
+        if stage == 0 {
+            out.at(0);
+            mutating_function_cases(out);
+            return;
+        }
         let world = install();
         let progs = Programs::new(level(tier));
         for i in a..b {
@@ -130,7 +201,10 @@ impl Prop for C07 {
             }
         }
     }
-    fn case_text(&self, tier: Tier, _stage: usize, i: u64) -> String {
+    fn case_text(&self, tier: Tier, stage: usize, i: u64) -> String {
+        if stage == 0 {
+            return "context function that re-binds a variable".to_string();
+        }
         let world = install();
         show(&print_program(&Programs::new(level(tier)).get(i), &world))
     }
